@@ -365,7 +365,10 @@ def compare(cases, impl_lines, drv_lines, impl_failures=(), norm=None, ub_is_vio
             v.corr_fail.append((i, c, il, dl, "", "driver-output-unparsed"))
             continue
         M, S, P = m.group(1), m.group(2), m.group(3) == "1"
-        if m.group(4):
+        if m.group(4) and (not il.startswith("?ABORT") or il.strip() == "?ABORT status=6"):
+            # the known-finding tag names a family of inputs on which a KNOWN wrong answer is expected (for F9 also
+            # the library's own assert() after the recorded overflow: SIGABRT, status 6); an AddressSanitizer
+            # report, a crash or a timeout is never part of a recorded finding and is never suppressed
             c = c + "  #K=" + m.group(4)
         ub = il.endswith(" UB")
         iv = il[:-3] if ub else il
